@@ -241,7 +241,7 @@ def wl_objects(ctx, rng, i):
 
 
 WORKLOADS = [
-    Workload("objects", wl_objects, quick=lambda: len(CARRIERS) * 4, thorough=lambda: len(CARRIERS) * 60),
+    Workload("objects", wl_objects, quick=lambda: len(CARRIERS) * 4, thorough=lambda: len(CARRIERS) * 300),
 ]
 
 
